@@ -188,10 +188,6 @@ func VerifProject(c *Conversation) VerifState {
 			s.AKE.State = "awDHKey"
 		case authStateAwaitingRevealSig:
 			s.AKE.State = "awRevSig"
-			if c.ake.ourCommitPending {
-				// the winner of a D-H Commit collision is, in the protocol's terms, still awaiting the D-H Key
-				s.AKE.State = "awDHKey"
-			}
 		case authStateAwaitingSig:
 			s.AKE.State = "awSig"
 			s.AKE.RevealSigStored = verifCopy(st.revealSigMsg)
